@@ -658,3 +658,21 @@ def resolve_conflict_applies_the_answer(w: World):
         check(c.args[0] is (s1 if loser == 1 else s0), "with keep: the loser is renamed out of the way")
     if beh != "pick0" and beh != "pick1":
         check(len(ws) == 0 and len(rn) == 1, "no usable answer: the local version is kept aside, nothing is overwritten")
+
+
+@lemma(props=["C18"], configs="none", raises=["TimeoutError"],
+       stubs={"cloudsync.runnable:Runnable.wake": {"results": ["None"], "raises": False, "havoc": False}})
+def stop_waits_for_the_service_thread(w: World, forever: bool, wait: bool, has_thread: bool):
+    """L18.4 (sequential part of stop): a stop request always raises the stopping flag, records whether it is final and
+    wakes the loop; when the service has a thread and the caller is another thread, `wait=True` joins that thread --
+    whether or not the loop has already set up or torn down its wake-up event -- so that when stop() returns the loop and
+    its cleanup are over; `wait=False` never blocks"""
+    r = w.runnable()
+    if has_thread:
+        r._Runnable__thread = w.thread()
+    r.stop(forever=forever, wait=wait)
+    check(r._Runnable__stopping is True, "the stopping flag is raised")
+    check(r._Runnable__shutdown == forever, "finality is recorded")
+    check(len(calls("wake")) == 1, "the loop is woken")
+    joins = calls("join")
+    check(len(joins) == (1 if (has_thread and wait) else 0), "the service thread is joined exactly when there is one and the caller asked to wait")
